@@ -537,6 +537,18 @@ func (ex *Exec) globalKnowledge(o *types.Var, v Val) []*Term {
 			}
 		}
 	}
+	if o.Pkg() != nil && o.Pkg().Path() == repoPkgPath {
+		// package-level pointers initialised with the address of a literal are non-nil
+		if _, isPtr := o.Type().Underlying().(*types.Pointer); isPtr && len(v.C) == 1 {
+			if init := ex.globalInit(o); init != nil && ex.nonNilGlobalExpr(init) {
+				out = append(out, Neq(v.C[0], IntLit(0)))
+			}
+		}
+		out = append(out, ex.arrayConstFacts(o, v)...)
+		if _, isMap := o.Type().Underlying().(*types.Map); isMap {
+			out = append(out, ex.tableLeafFacts(o)...)
+		}
+	}
 	// error sentinels are non-nil and pairwise distinct by identity
 	if isIface(o.Type()) && strings.HasPrefix(o.Name(), "Err") || o.Name() == "EOF" || o.Name() == "ErrUnexpectedEOF" {
 		if len(v.C) == 2 {
